@@ -302,6 +302,18 @@ fn query3(m: &CMap3<f64>, s: &mut String) {
     for d in 1..n {
         for i in 0..8 {
             list_toks(catch_unwind(AssertUnwindSafe(|| m.orbit(pol(i), d).collect::<Vec<u32>>())), s);
+            list_toks(
+                catch_unwind(AssertUnwindSafe(|| {
+                    honeycomb_core::stm::atomically(|t| {
+                        let mut v = Vec::new();
+                        for x in m.orbit_transac(t, pol(i), d) {
+                            v.push(x?);
+                        }
+                        Ok(v)
+                    })
+                })),
+                s,
+            );
         }
         id_toks(catch_unwind(AssertUnwindSafe(|| m.vertex_id(d))), s);
         id_toks(catch_unwind(AssertUnwindSafe(|| m.edge_id(d))), s);
@@ -312,6 +324,32 @@ fn query3(m: &CMap3<f64>, s: &mut String) {
     list_toks(catch_unwind(AssertUnwindSafe(|| m.iter_edges().collect::<Vec<u32>>())), s);
     list_toks(catch_unwind(AssertUnwindSafe(|| m.iter_faces().collect::<Vec<u32>>())), s);
     list_toks(catch_unwind(AssertUnwindSafe(|| m.iter_volumes().collect::<Vec<u32>>())), s);
+    // an identifier query right after another one (the id functions share thread-local scratch
+    // buffers): for each dart d and each ordered pair (f, g) of id functions, g(next(d)) after f(d)
+    let idf = |k: usize, d: u32| -> u32 {
+        match k {
+            0 => m.vertex_id(d),
+            1 => m.edge_id(d),
+            2 => m.face_id(d),
+            _ => m.volume_id(d),
+        }
+    };
+    if n > 1 {
+        for d in 1..n {
+            let d2 = d % (n - 1) + 1;
+            for f in 0..4 {
+                for g in 0..4 {
+                    id_toks(
+                        catch_unwind(AssertUnwindSafe(|| {
+                            let _ = idf(f, d);
+                            idf(g, d2)
+                        })),
+                        s,
+                    );
+                }
+            }
+        }
+    }
 }
 
 // ------------------------------------------------------------------ generation
@@ -852,7 +890,14 @@ fn main() {
                             return queue.pop_front();
                         }
                         if done >= nops {
+                            if query_pct > 0 && done == nops {
+                                done += 1;
+                                return Some(Op::Query);
+                            }
                             return None;
+                        }
+                        if query_pct > 0 && r2.chance(query_pct, 100) {
+                            return Some(Op::Query);
                         }
                         done += 1;
                         let fa = if mask != 0 && r2.chance(fault, 100) { Some(r2.below(4)) } else { None };
